@@ -222,8 +222,8 @@ class Exec:
         fr = st.locals
         if name in fr:
             return fr[name]
-        if "__closure__" in fr and name in fr["__closure__"]:
-            return fr["__closure__"][name]
+        if "%closure" in fr and name in fr["%closure"]:
+            return fr["%closure"][name]
         return self.lookup_global(st, name, modname)
 
     def lookup_global(self, st, name, modname, seen=None):
@@ -275,7 +275,7 @@ class Exec:
 
     def ev_Name(self, st, n):
         try:
-            v = self.lookup_name(st, n.id, st.locals.get("__module__", ""))
+            v = self.lookup_name(st, n.id, st.locals.get("%module", ""))
         except KeyError:
             return self.raise_(st, "NameError", n.id)
         if v is UNBOUND:
@@ -317,7 +317,7 @@ class Exec:
         return self.bind(self.ev_list(st, list(n.keys) + list(n.values)), mk)
 
     def ev_Lambda(self, st, n):
-        return [Res(st, VLambda(n, dict(st.locals), st.locals.get("__module__", "")))]
+        return [Res(st, VLambda(n, dict(st.locals), st.locals.get("%module", "")))]
 
     def ev_IfExp(self, st, n):
         out = []
@@ -526,7 +526,7 @@ class Exec:
 
     def super_function(self, st, n):
         mname = n.func.attr
-        cur_cls = st.locals.get("__class__")
+        cur_cls = st.locals.get("%class")
         self_v = st.locals.get("self")
         if cur_cls is None or self_v is None:
             raise Unsupported("super() outside method")
@@ -540,7 +540,7 @@ class Exec:
 
     def super_call(self, st, n):
         mname = n.func.attr
-        cur_cls = st.locals.get("__class__")
+        cur_cls = st.locals.get("%class")
         self_v = st.locals.get("self")
         if cur_cls is None or self_v is None:
             raise Unsupported("super() outside method")
@@ -634,6 +634,13 @@ class Exec:
         if isinstance(v, VObj):
             o = st.obj(v)
             if isinstance(o, Inst):
+                if name == "__dict__":
+                    d = st.obj(val) if isinstance(val, VObj) else None
+                    if not isinstance(d, CDict):
+                        raise Unsupported("__dict__ assigned a non-concrete dict")
+                    st.set_obj(v, Inst(o.cls, {k: x for k, x in d.items.items()}))
+                    st.events.append(("set__dict__", v.oid))
+                    return [Out(st)]
                 setter = self.P.lookup_setter(o.cls, name)
                 if setter is not None and name not in o.fields:
                     return [Out(r.st) if r.exc is None else Out(r.st, "raise", exc=r.exc) for r in self.call_function(st, setter, [v, val], {})]
@@ -659,6 +666,10 @@ class Exec:
         if isinstance(fv, VClass):
             return self.B.instantiate(st, fv.name, args, kwargs, starargs=starargs, starkw=starkw)
         if isinstance(fv, VBuiltin):
+            if fv.name == "type.dict" and starkw is not None and isinstance(starkw, VOpq) and starargs is None:
+                f = z3.Function("dict_merge", core.Opq, core.Opq, core.Opq)
+                base = args[0].t if args and isinstance(args[0], VOpq) else z3.Const("py:emptydict", core.Opq)
+                return [Res(st, VOpq(f(base, starkw.t), "opaque-dict"))]
             if starargs is not None or starkw is not None:
                 raise Unsupported(f"symbolic star args to builtin {fv.name}")
             return self.B.call(st, fv, args, kwargs, node)
@@ -685,10 +696,25 @@ class Exec:
         params = [a.arg for a in n.args.args]
         if len(args) != len(params) or kwargs:
             raise Unsupported("lambda arity")
-        frame = {"__module__": lam.modname, "__closure__": lam.env}
+        frame = {"%module": lam.modname, "%closure": lam.env}
         frame.update(dict(zip(params, args)))
         st.frames.append(frame)
         out = []
+        if isinstance(n, ast.FunctionDef):  # a nested def
+            for nm in assigned_names(n):
+                if nm not in frame:
+                    frame[nm] = UNBOUND
+            for o in self.ex_block(st, n.body):
+                o.st.frames.pop()
+                if o.kind == "raise":
+                    out.append(Res(o.st, exc=o.exc))
+                elif o.kind == "return":
+                    out.append(Res(o.st, o.v))
+                elif o.kind == "next":
+                    out.append(Res(o.st, NONE))
+                else:
+                    raise Unsupported(f"{o.kind} escaping nested function")
+            return out
         for r in self.ev(st, n.body):
             r.st.frames.pop()
             out.append(r)
@@ -710,7 +736,7 @@ class Exec:
         node = fi.node
         a = node.args
         params = [p.arg for p in a.posonlyargs + a.args]
-        frame = {"__module__": fi.module, "__class__": fi.cls, "__func__": fi.qualname}
+        frame = {"%module": fi.module, "%class": fi.cls, "%func": fi.qualname}
         kwargs = dict(kwargs)
         # positional
         npos = len(params)
@@ -869,7 +895,7 @@ class Exec:
 
     def ex_Raise(self, st, n):
         if n.exc is None:
-            cur = st.locals.get("__handling__")
+            cur = st.locals.get("%handling")
             return [Out(st, "raise", exc=cur or Exc("RuntimeError", "reraise"))]
 
         def f(s, v):
@@ -1012,15 +1038,15 @@ class Exec:
                         names = [ast.unparse(h.type).split(".")[-1]]
                     if any(exc_matches(o.exc.cls, nm) for nm in names):
                         s = o.st
-                        prev = s.locals.get("__handling__")
-                        s.locals["__handling__"] = o.exc
+                        prev = s.locals.get("%handling")
+                        s.locals["%handling"] = o.exc
                         if h.name:
                             s.locals[h.name] = VOpq(s.fresh("excobj", core.Opq), "excobj")
                         for o2 in self.ex_block(s, h.body):
                             if prev is None:
-                                o2.st.locals.pop("__handling__", None)
+                                o2.st.locals.pop("%handling", None)
                             else:
-                                o2.st.locals["__handling__"] = prev
+                                o2.st.locals["%handling"] = prev
                             outs.append(o2)
                         handled = True
                         break
@@ -1056,7 +1082,7 @@ class Exec:
     def ex_FunctionDef(self, st, n):
         from .frontend import FuncInfo
 
-        mod = self.P.modules[st.locals["__module__"]]
+        mod = self.P.modules[st.locals["%module"]]
         fi = FuncInfo(mod.name, None, n, mod.source, mod.path)
         st.locals[n.name] = VLambda(n, st.locals, mod.name)
         return [Out(st)]
@@ -1064,7 +1090,7 @@ class Exec:
     # ------------------------------------------------------------------ entry point
     def run(self, st, fi, args, kwargs=None):
         """Run a function under contract from a prepared pre-state -> list of Res."""
-        st.frames = [{"__module__": fi.module}]
+        st.frames = [{"%module": fi.module}]
         res = self.call_function(st, fi, args, kwargs or {})
         self.stats["paths"] += len(res)
         return res
